@@ -22,3 +22,27 @@ Print Assumptions C20_items_from_templates.
 Theorem C20_parent_conv : forall c, forallb (fun i => str_in i allow_idents) (toks_idents (parent_conv c)) = true.
 Proof. exact parent_conv_idents. Qed.
 Print Assumptions C20_parent_conv.
+
+(* ---- closed world: the provenance of every identifier of the generated code, for every input ----
+   `data_ok d` says that every identifier carried by the parsed input d (type name, generic parameters, field / variant names,
+   member names and the tokens of types, expressions, literals, patterns, where-predicates, attribute payloads) satisfies Pr.
+   Then every identifier of every generated impl satisfies Pr, provided Pr holds of the 35 identifiers the renderer and the
+   regenerated templates write themselves (expand_literals: keywords, core / convert / result / o2o / traits, the trait and
+   method names, value / other / obj / self / Ok / Default / default / Error) and of the payload bindings f0, f1, ... *)
+From O2o.Lemmas Require Import IdentBase IdentProv IdentExample.
+
+Theorem C20_provenance : forall (Pr : string -> Prop) (H1 : forall i, In i expand_literals -> Pr i) (H2 : forall n, Pr (f_ident n)) d ts,
+    @data_ok (Build_Prov Pr H1 H2) d -> data_type_impl d = Ok ts -> forall i, In i (toks_idents ts) -> Pr i.
+Proof. intros Pr H1 H2 d ts Hd E. exact (@data_type_impl_idents (Build_Prov Pr H1 H2) d ts Hd E). Qed.
+Print Assumptions C20_provenance.
+
+(* the instance the property names: an input that mentions neither `std` nor `alloc` expands to code that mentions neither *)
+Theorem C20_no_std_alloc : forall d ts,
+    @data_ok no_std_prov d -> data_type_impl d = Ok ts -> ~ In "std"%string (toks_idents ts) /\ ~ In "alloc"%string (toks_idents ts).
+Proof. exact no_std_alloc. Qed.
+Print Assumptions C20_no_std_alloc.
+
+(* the hypotheses are satisfiable: a concrete struct with a renamed field, an expression and a ghost satisfies data_ok, expands, and its output is covered *)
+Theorem C20_example : exists d ts, @data_ok no_std_prov d /\ data_type_impl d = Ok ts /\ ts <> [].
+Proof. exact provenance_example. Qed.
+Print Assumptions C20_example.
